@@ -77,18 +77,40 @@ def bound (st : St) (ssrc : Nat) : Bool := st.streams.any (·.ssrc == ssrc)
 
 /-- advance the clock to `target`, firing every tick instant `≤ target` on the way (`fuel` bounds
 the number of ticks; the generator keeps it far below). -/
-def advTo (st : St) (target : Int) : Nat → St × List String
+def advTo (st : St) (target : Int) : Nat → St × List RR
   | 0 => ({ st with now := target }, [])
   | fuel + 1 =>
     if st.nextTick ≤ target then
       let (rs, ss) := tick st.streams st.nextTick
       let (st', out) := advTo { st with now := st.nextTick, nextTick := st.nextTick + st.interval, streams := ss } target fuel
-      (st', rs.map showRR ++ out)
+      (st', rs ++ out)
     else ({ st with now := target }, [])
 
-def adv (st : St) (dt : Nat) : St × List String :=
+/-- advance the clock by `dt`; the reports of the ticks crossed. -/
+def advRR (st : St) (dt : Nat) : St × List RR :=
   let target := st.now + dt
   advTo { st with first := false } target (((target - st.now) / st.interval).toNat + 2)
+
+def adv (st : St) (dt : Nat) : St × List String :=
+  let (st', rs) := advRR st dt
+  (st', rs.map showRR)
+
+/-- `jumprun`: `n` times [advance `dt`; one RTP packet; advance to the next tick instant].  Packet `i`
+carries `seq + i·step` (mod 2^16) and `ts + i·tsstep` (mod 2^32).  All reports of the run, in order. -/
+def jumpRun (st : St) (ssrc seq ts step tsstep dt : Nat) : Nat → Array RR → St × Array RR
+  | 0, acc => (st, acc)
+  | n + 1, acc =>
+    let (st1, r1) := advRR st dt
+    let st2 := { st1 with streams := update st1.streams ssrc (processRTP · st1.now seq ts) }
+    let (st3, r2) := advRR st2 (st2.nextTick - st2.now).toNat
+    jumpRun st3 ssrc ((seq + step) % 65536) ((ts + tsstep) % M32) step tsstep dt n ((acc ++ r1.toArray) ++ r2.toArray)
+
+/-- digest of a run's reports: count, Σ cumulative-lost, Σ fraction, max cumulative-lost, Σ ext, Σ jitter
+(sums modulo 2^32). -/
+def digest (rs : Array RR) : String :=
+  let f (g : RR → Nat) : Nat := rs.foldl (fun a r => (a + g r) % M32) 0
+  let mx := rs.foldl (fun a r => if r.totalLost > a then r.totalLost else a) 0
+  s!"run reports={rs.size} lostsum={f (·.totalLost)} fracsum={f (·.fraction)} lostmax={mx} extsum={f (·.ext)} jitsum={f (·.jitter)}"
 
 def step (st : St) (ts : List String) : St × List String :=
   let fs := fields ts
@@ -131,6 +153,15 @@ def step (st : St) (ts : List String) : St × List String :=
     match ts with
     | [_] => adv st (st.nextTick - st.now).toNat
     | _ => (st, ["bad-op"])
+  | some "jumprun" =>
+    match getNat fs "ssrc", getNat fs "seq", getNat fs "ts", getNat fs "n", getNat fs "step", getNat fs "tsstep",
+      getNat fs "dt", getNat fs "keep" with
+    | some ssrc, some seq, some t, some n, some stp, some tsstep, some dt, some keep =>
+      if seq < 65536 ∧ t < M32 ∧ stp < 65536 ∧ tsstep < M32 ∧ 0 < n ∧ n ≤ 100000 ∧ bound st ssrc then
+        let (st', rs) := jumpRun { st with first := false } ssrc seq t stp tsstep dt n #[]
+        (st', digest rs :: (rs.extract (rs.size - keep) rs.size).toList.map showRR)
+      else (st, ["bad-op"])
+    | _, _, _, _, _, _, _, _ => (st, ["bad-op"])
   | some "unbind" =>
     match getNat fs "ssrc", getNat fs "dt" with
     | some ssrc, some dt =>
